@@ -112,14 +112,14 @@ def _kinds(sc):
 
 
 def _id_reused(trace):
-  """True when a trial name deleted during the run is created again during the same run."""
-  deleted = set()
+  """(deleter thread, creator thread) when a trial name deleted during the run is created again in the same run."""
+  deleted = {}
   for tid, what in trace:
     if what.startswith('ds.delete_trial:'):
-      deleted.add(what.split(':', 1)[1])
+      deleted[what.split(':', 1)[1]] = tid
     if what.startswith('ds.create_trial:') and what.split(':', 1)[1] in deleted:
-      return True
-  return False
+      return (deleted[what.split(':', 1)[1]], tid)
+  return None
 
 
 def run_scenario(sc):
@@ -187,8 +187,10 @@ def run_scenario(sc):
     outcomes[key] = outcomes.get(key, 0) + 1
     if key not in serial and not any(k in serial for k in _norm_all(res, canon, old_ids)):
       classes = [r[0] for r in res]
-      clause = 'not-serializable:id-reused-after-delete' if _id_reused(trace) else 'not-serializable'
-      vios.append({'sig': 'C04|%s|%s' % (clause, _kinds(sc)),
+      reuse = _id_reused(trace)
+      clause = 'not-serializable:id-reused-after-delete' if reuse else 'not-serializable'
+      kinds = '+'.join(sorted({RPCS[sc['rpcs'][t]][0] for t in reuse})) if reuse else _kinds(sc)
+      vios.append({'sig': 'C04|%s|%s' % (clause, kinds),
                    'desc': '[%s prefix=%s] schedule %s gives response classes %s and a final state that no serial order of %s produces; trace=%s'
                            % (sc['kind'], sc['prefix'], taken, classes, sc['rpcs'], [t for t in trace][:40]),
                    'case': dict(sc, schedule=taken)})
